@@ -29,46 +29,70 @@ def applicable_cells(pm: ProtocolModel):
             yield name, ci, ot, st
 
 
-def terminal_statuses(prog: Program) -> set[str]:
-    """The terminal set: the OperationStatus set literal used by the replay tracking of ExecutionState
-    (track_replay or a helper it calls; any method of the class as a fallback)."""
-    sc = prog.cls("state", "ExecutionState")
+TERMINAL_SPEC = ("SUCCEEDED", "FAILED", "CANCELLED", "TIMED_OUT", "STOPPED")
 
-    def sets_in(fn):
-        best: set[str] = set()
-        for node in ast.walk(fn.node):
-            if isinstance(node, (ast.Set, ast.Tuple, ast.List)):
-                names = set()
-                for e in node.elts:
-                    if isinstance(e, ast.Attribute) and isinstance(e.value, ast.Name) and e.value.id == "OperationStatus":
-                        names.add(e.attr)
-                if len(names) > len(best):
-                    best = names
-        return best
+
+def terminal_statuses(prog: Program) -> set[str]:
+    """The statuses the backend never leaves again (its contract, not something to be read off the code under analysis);
+    every one of them must exist in the SDK's OperationStatus enum."""
+    members = set(prog.cls("lambda_service", "OperationStatus").enum_members)
+    missing = set(TERMINAL_SPEC) - members
+    if missing:
+        raise AnalysisError(f"OperationStatus lacks the terminal member(s) {sorted(missing)}")
+    return set(TERMINAL_SPEC)
+
+
+def replay_completed_statuses(prog: Program) -> list[tuple[set[str], str]]:
+    """What ExecutionState's replay tracking counts as 'completed': the membership test on OperationStatus literals in track_replay
+    (or a helper it calls), evaluated for every member of the enum (handles `in`, `not in`, and ==/is chains)."""
+    sc = prog.cls("state", "ExecutionState")
+    members = set(prog.cls("lambda_service", "OperationStatus").enum_members)
+
+    def lits(node):
+        out = set()
+        for e in getattr(node, "elts", []):
+            if isinstance(e, ast.Attribute) and isinstance(e.value, ast.Name) and e.value.id == "OperationStatus":
+                out.add(e.attr)
+            else:
+                return None
+        return out
+
+    def resolve(fn, node):
+        # a Name bound once in the function / module to a literal collection
+        if isinstance(node, ast.Name):
+            for scope in (fn.node, fn.module.tree):
+                defs = [a.value for a in ast.walk(scope) if isinstance(a, (ast.Assign, ast.AnnAssign)) and a.value is not None
+                        and any(isinstance(t, ast.Name) and t.id == node.id for t in (a.targets if isinstance(a, ast.Assign) else [a.target]))]
+                if len(defs) == 1:
+                    node = defs[0]
+                    break
+        if isinstance(node, ast.Call) and isinstance(node.func, ast.Name) and node.func.id in ("frozenset", "set", "tuple") and len(node.args) == 1:
+            node = node.args[0]
+        return node
 
     tr = sc.methods.get("track_replay")
-    todo = [tr] if tr is not None else []
-    seen = set()
-    best: set[str] = set()
+    if tr is None:
+        raise AnalysisError("ExecutionState.track_replay not found")
+    todo, seen, found = [tr], set(), []
     while todo:
         f = todo.pop()
         if f.fq in seen:
             continue
         seen.add(f.fq)
-        b = sets_in(f)
-        if len(b) > len(best):
-            best = b
+        for n in ast.walk(f.node):
+            if isinstance(n, ast.Compare) and len(n.ops) == 1 and isinstance(n.ops[0], (ast.In, ast.NotIn)) \
+                    and isinstance(n.left, ast.Attribute) and n.left.attr == "status":
+                coll = resolve(f, n.comparators[0])
+                if isinstance(coll, (ast.Set, ast.Tuple, ast.List)):
+                    ls = lits(coll)
+                    if ls:
+                        found.append((ls if isinstance(n.ops[0], ast.In) else members - ls, f"{f.qualname}: `{ast.unparse(n)[:100]}`"))
         for _, m in self_method_calls(f.node):
             if m in sc.methods:
                 todo.append(sc.methods[m])
-    if len(best) < 2:
-        for f in sc.methods.values():
-            b = sets_in(f)
-            if len(b) > len(best) and "SUCCEEDED" in b:
-                best = b
-    if len(best) < 2:
-        raise AnalysisError("terminal status set not found in ExecutionState")
-    return best
+    if not found:
+        raise AnalysisError("the status test of the replay tracking was not recognised (expected `status in/not in {OperationStatus...}`)")
+    return found
 
 
 def construct_of(site: str) -> str:
@@ -163,3 +187,212 @@ def attempt_expr_ok(v, pc) -> bool:
         if isinstance(l, Const) and l.value == 1 and isinstance(r, Sym) and r.k.endswith("step_details.attempt"):
             return True
     return False
+
+
+def child_context_escapes(prog):
+    """Ownership rule: a child context carries the position counter the ids of the body's operations are derived from, so every run of
+    a body (first run, timer re-submission, replay) must get a context created for that run.  Returns (sites, escapes): for every call of
+    `create_child_context`, the construct, and every way its result outlives the activation that created it (stored in an attribute,
+    a container, a global, or handed to a mutator of longer-lived state)."""
+    import ast as _ast
+
+    from .cfg import walk_shallow
+
+    sites, escapes = [], []
+    for fi in prog.functions.values():
+        if isinstance(fi.node, _ast.Lambda):
+            continue
+        calls = [n for n in walk_shallow(fi.node) if isinstance(n, _ast.Call) and isinstance(n.func, _ast.Attribute) and n.func.attr == "create_child_context"]
+        if not calls:
+            continue
+        names = set()
+        body_nodes = list(walk_shallow(fi.node))
+        parents = {}
+        for n in body_nodes:
+            for c in _ast.iter_child_nodes(n):
+                parents[id(c)] = n
+        for c in calls:
+            sites.append((fi, c))
+            p = parents.get(id(c))
+            if isinstance(p, (_ast.Assign, _ast.AnnAssign)):
+                tg = p.targets if isinstance(p, _ast.Assign) else [p.target]
+                for t in tg:
+                    if isinstance(t, _ast.Name):
+                        names.add(t.id)
+                    else:
+                        escapes.append((fi, c, f"the new context is stored in `{_ast.unparse(t)}`"))
+            elif isinstance(p, _ast.Call) and c in p.args and not (isinstance(p.func, _ast.Attribute) and p.func.attr in _CONTAINER_MUTATORS):
+                pass  # handed straight to the body / a callee
+            elif isinstance(p, (_ast.Return, _ast.keyword)):
+                pass
+            else:
+                escapes.append((fi, c, f"the new context is used in `{_ast.unparse(p)[:80]}`" if p is not None else "unrecognised use"))
+        # every other binding of those locals must also be a fresh context, and the locals must not be stored anywhere longer-lived
+        for n in body_nodes:
+            if isinstance(n, (_ast.Assign, _ast.AnnAssign)):
+                tg = n.targets if isinstance(n, _ast.Assign) else [n.target]
+                val = n.value
+                for t in tg:
+                    if isinstance(t, _ast.Name) and t.id in names and val is not None and not (
+                            isinstance(val, _ast.Call) and isinstance(val.func, _ast.Attribute) and val.func.attr == "create_child_context"):
+                        escapes.append((fi, n, f"the context local `{t.id}` is also bound to `{_ast.unparse(val)[:80]}` (not a newly created context)"))
+                    if not isinstance(t, _ast.Name) and val is not None and any(isinstance(x, _ast.Name) and x.id in names for x in _ast.walk(val)):
+                        escapes.append((fi, n, f"the context is stored in `{_ast.unparse(t)}`"))
+            elif isinstance(n, _ast.Call) and isinstance(n.func, _ast.Attribute) and n.func.attr in _CONTAINER_MUTATORS \
+                    and any(isinstance(x, _ast.Name) and x.id in names for a in [*n.args, *[k.value for k in n.keywords]] for x in _ast.walk(a)):
+                escapes.append((fi, n, f"the context is put into a container via `{_ast.unparse(n)[:80]}`"))
+            elif isinstance(n, (_ast.Global, _ast.Nonlocal)) and set(n.names) & names:
+                escapes.append((fi, n, "the context local is declared global/nonlocal"))
+    return sites, escapes
+
+
+_CONTAINER_MUTATORS = {"append", "add", "setdefault", "insert", "extend", "update", "put", "put_nowait", "appendleft"}
+
+
+# ---------------------------------------------------------------------------------------------------------------------------
+# negative-verdict memoisation in a monotone guard
+_SET_MUTATORS = {"add", "update", "append", "extend", "setdefault", "insert", "__setitem__"}
+
+
+def _self_attr(n):
+    import ast as _ast
+    while isinstance(n, _ast.Subscript):
+        n = n.value
+    if isinstance(n, _ast.Attribute) and isinstance(n.value, _ast.Name) and n.value.id == "self":
+        return n.attr
+    return None
+
+
+def _writes(fn_node):
+    """(attr, stmt, how) for every statement of fn that grows / rebinds a self attribute ('grow') or empties it completely ('clear')."""
+    import ast as _ast
+    out = []
+    for st in _ast.walk(fn_node):
+        if isinstance(st, (_ast.Assign, _ast.AnnAssign, _ast.AugAssign)):
+            tg = st.targets if isinstance(st, _ast.Assign) else [st.target]
+            for t in tg:
+                a = _self_attr(t)
+                if a is None:
+                    continue
+                val = st.value
+                empty = isinstance(t, _ast.Attribute) and not isinstance(st, _ast.AugAssign) and val is not None and (
+                    (isinstance(val, _ast.Call) and not val.args and not val.keywords and isinstance(val.func, _ast.Name) and val.func.id in ("set", "dict", "list"))
+                    or (isinstance(val, (_ast.Dict, _ast.List, _ast.Set)) and not getattr(val, "keys", getattr(val, "elts", []))))
+                shrink = isinstance(st, _ast.AugAssign) and isinstance(st.op, (_ast.Sub, _ast.BitAnd))
+                out.append((a, st, "clear" if empty else ("shrink" if shrink else "grow")))
+        elif isinstance(st, _ast.Call) and isinstance(st.func, _ast.Attribute):
+            a = _self_attr(st.func.value)
+            if a is None:
+                continue
+            if st.func.attr == "clear":
+                out.append((a, st, "clear"))
+            elif st.func.attr in _SET_MUTATORS:
+                out.append((a, st, "grow"))
+            elif st.func.attr in ("discard", "remove", "pop", "difference_update", "intersection_update"):
+                out.append((a, st, "shrink"))
+    return out
+
+
+def stale_negative_verdicts(cls_node, guard_fn_name: str):
+    """A guard whose positive verdict is monotone in time (once a context completed, everything beneath it stays orphaned) may remember
+    positive verdicts for ever, but a remembered *negative* verdict ("no completed ancestor") goes stale whenever any of the sets the
+    positive verdict is read from grows.  Returns (predicates, memo attrs, findings): a self attribute that a predicate function writes
+    on a path that does not return True is a negative memo; it must be emptied completely (`.clear()` / rebinding to an empty container)
+    in every function that grows a positive-verdict set (or in all callers of that function)."""
+    import ast as _ast
+
+    methods = {n.name: n for n in cls_node.body if isinstance(n, (_ast.FunctionDef, _ast.AsyncFunctionDef))}
+    g = methods.get(guard_fn_name)
+    if g is None:
+        return [], {}, [("?", f"{guard_fn_name} not found")]
+    # predicate functions: self-methods called inside the test of the `if` that raises the orphan exception (transitively)
+    tests = []
+    for n in _ast.walk(g):
+        if isinstance(n, _ast.If) and any(isinstance(r, _ast.Raise) and r.exc is not None and "Orphan" in _ast.unparse(r.exc) for b in n.body for r in _ast.walk(b)):
+            tests.append(n.test)
+    preds, todo = {}, []
+    for t in tests:
+        for c in _ast.walk(t):
+            if isinstance(c, _ast.Call) and isinstance(c.func, _ast.Attribute) and isinstance(c.func.value, _ast.Name) and c.func.value.id == "self" and c.func.attr in methods:
+                todo.append(c.func.attr)
+    while todo:
+        m = todo.pop()
+        if m in preds:
+            continue
+        preds[m] = methods[m]
+        for c in _ast.walk(methods[m]):
+            if isinstance(c, _ast.Call) and isinstance(c.func, _ast.Attribute) and isinstance(c.func.value, _ast.Name) and c.func.value.id == "self" and c.func.attr in methods:
+                todo.append(c.func.attr)
+    # positive-verdict sets: self attributes read (membership / lookup) by the guard test or the predicates
+    pos = set()
+    for node in [*tests, *preds.values()]:
+        for n in _ast.walk(node):
+            a = _self_attr(n) if isinstance(n, (_ast.Attribute, _ast.Subscript)) else None
+            if a and not a.endswith("_lock"):
+                pos.add(a)
+
+    def block_returns_true(fn_node, stmt):
+        # the statement list that holds `stmt` ends in `return True`
+        for n in _ast.walk(fn_node):
+            for fld in ("body", "orelse", "finalbody"):
+                blk = getattr(n, fld, None)
+                if isinstance(blk, list) and any(stmt is s or any(stmt is x for x in _ast.walk(s)) for s in blk):
+                    inner = [s for s in blk if stmt is s or any(stmt is x for x in _ast.walk(s))][0]
+                    if inner is stmt or isinstance(inner, _ast.Expr) and inner.value is stmt:
+                        last = blk[-1]
+                        return isinstance(last, _ast.Return) and isinstance(last.value, _ast.Constant) and last.value.value is True
+        return False
+
+    memo = {}
+    for pname, p in preds.items():
+        for a, st, how in _writes(p):
+            if how == "grow" and not block_returns_true(p, st):
+                memo.setdefault(a, []).append((pname, st.lineno))
+    findings = []
+    if memo:
+        growers = {}
+        for mname, m in methods.items():
+            if mname == "__init__":
+                continue
+            for a, st, how in _writes(m):
+                if how == "grow" and a in pos and a not in memo:
+                    growers.setdefault(mname, set()).add(a)
+        clears = {mname: {a for a, st, how in _writes(m) if how == "clear"} for mname, m in methods.items()}
+        callers = {}
+        for mname, m in methods.items():
+            for c in _ast.walk(m):
+                if isinstance(c, _ast.Call) and isinstance(c.func, _ast.Attribute) and isinstance(c.func.value, _ast.Name) and c.func.value.id == "self":
+                    callers.setdefault(c.func.attr, set()).add(mname)
+        for a, where in memo.items():
+            for gname, grown in sorted(growers.items()):
+                ok = a in clears.get(gname, set()) or (callers.get(gname) and all(a in clears.get(c, set()) for c in callers[gname]))
+                if not ok:
+                    findings.append((gname, f"`self.{a}` remembers a negative verdict (written in {where[0][0]}, line {where[0][1]}) but `{gname}` grows "
+                                            f"{sorted('self.' + x for x in grown)} without emptying it completely: an operation first started "
+                                            "under a deeper descendant of a context that completes later keeps its stale 'live' verdict"))
+    return sorted(preds), memo, findings
+
+
+NEG_MEMO_FIXTURE = '''
+class S:
+    def create_checkpoint(self, u):
+        if u.is_context_end:
+            self._mark(u.id)
+            self._completed.add(u.id)
+            self._live.discard(u.id)
+        if u.id in self._done or self._dead(u.parent):
+            self._done.add(u.id)
+            raise OrphanedChildException("x")
+    def _dead(self, p):
+        if p in self._live:
+            return False
+        cur = p
+        while cur:
+            if cur in self._completed or cur in self._done:
+                return True
+            cur = self._parent_of.get(cur)
+        self._live.add(p)
+        return False
+    def _mark(self, c):
+        self._done.update(self._children.get(c, ()))
+'''
